@@ -45,6 +45,7 @@ CLAIMED["C19"] = ("5/C19",
    "Not covered: bit-identical app hash, losslessness of exported values beyond field coverage, nondeterminism inside dependencies. Trusted: go/types; scoping by package class.",
    "AST/type-based determinism lint, genesis field-coverage analysis, keeper-field write scan with call-graph classification")
 FIX_COMMITS.append("59282cb358")
+FIX_COMMITS.append("d2a0ad067f")
 
 CLAIMED["C20"] = ("5/C20",
    "Interprocedural guard propagation (rule GI) over the workspace call graph: for all 37 message handlers of concentrated-liquidity, lockup, superfluid, tokenfactory and valset-pref (signer field read from each message's GetSigners), every bounded-depth call path to a privileged sink (lock, position and denom mutators) carries a branch that compares a signer-identity value with the stored object's owner/admin and fails on mismatch — directly, via a checked guard helper, inside the sink on all success paths, or modulo the governance-module equality — with three creation/own-index exemptions listed with side conditions.",
